@@ -4,7 +4,7 @@
    [glob_ci p a] is the IAM wildcard match of C08, blind to ASCII letter case.
    The shipped catalogue is checked in Actions/CatalogueChecks.v (Catalogue_ok), regenerated from the source on every run. *)
 From Coq Require Import List Bool NArith Sorting.Sorted Permutation.
-From PV Require Import Base.Str Base.Value Glob.Glob Run.RState Actions.Expand Actions.ExpandThm Actions.Catalogue Actions.Tree Actions.Fast.
+From PV Require Import Base.Str Base.Value Glob.Glob Run.RState Glob.GlobAlgebra Actions.Expand Actions.ExpandThm Actions.ExpandAlgebra Actions.Catalogue Actions.Tree Actions.Fast.
 Import ListNotations.
 
 (* Action: exactly the catalogue actions matched by at least one pattern *)
@@ -159,3 +159,122 @@ Example C09_union_of_complements_refuted :
   stmt_expanded_defect CAT5 [] (Some [s "s3:Get*"; s "s3:Put*"]%string)
     <> stmt_expanded CAT5 [] (Some [s "s3:Get*"; s "s3:Put*"]%string).
 Proof. vm_compute. repeat split; try reflexivity. discriminate. Qed.
+
+(* ================================================================================================ *)
+(* COROLLARIES OF THE PATTERN ALGEBRA (C08; Glob/GlobAlgebra.v, Actions/ExpandAlgebra.v).
+   [ci_equiv p q]: p and q match the same names (as action patterns, blind to ASCII case).  ANY catalogue. *)
+
+Theorem C09_ci_equiv_meaning : forall p q, ci_equiv p q <-> forall a, glob_ci p a = glob_ci q a.
+Proof. intros p q. exact (iff_refl _). Qed.
+Print Assumptions C09_ci_equiv_meaning.
+
+(* expansion -- Action and NotAction -- is invariant under replacing the members of a list by equivalent patterns ... *)
+Theorem C09_equivalent_patterns_same_expansion : forall cat ps qs,
+  Forall2 ci_equiv ps qs ->
+  expand cat ps = expand cat qs /\ expand_not cat ps = expand_not cat qs.
+Proof. exact expand_equiv. Qed.
+Print Assumptions C09_equivalent_patterns_same_expansion.
+
+(* ... and depends only on the SET of patterns up to equivalence (order, repetition and spelling are irrelevant) *)
+Theorem C09_equivalent_pattern_sets_same_expansion : forall cat ps qs,
+  (forall p, In p ps -> exists q, In q qs /\ ci_equiv p q) ->
+  (forall q, In q qs -> exists p, In p ps /\ ci_equiv q p) ->
+  expand cat ps = expand cat qs /\ expand_not cat ps = expand_not cat qs.
+Proof. exact expand_equiv_sets. Qed.
+Print Assumptions C09_equivalent_pattern_sets_same_expansion.
+
+(* the same in the entry points: one pattern, a string-or-list argument, a statement *)
+Theorem C09_equivalent_patterns_same_expansion_apis : forall cat,
+  (forall p q na, ci_equiv p q -> expand_action cat p na = expand_action cat q na) /\
+  (forall x y na, arg_equiv x y -> expand_actions cat x na = expand_actions cat y na) /\
+  (forall acts acts' nots nots',
+     Forall2 ci_equiv acts acts' ->
+     match nots, nots' with
+     | Some ns, Some ns' => Forall2 ci_equiv ns ns'
+     | None, None => True
+     | _, _ => False
+     end ->
+     stmt_expanded cat acts nots = stmt_expanded cat acts' nots').
+Proof.
+  intros cat. exact (conj (expand_action_equiv cat) (conj (expand_actions_equiv cat) (stmt_expanded_equiv cat))).
+Qed.
+Print Assumptions C09_equivalent_patterns_same_expansion_apis.
+
+(* the equivalences of the algebra, for action patterns (p, q arbitrary: wildcards, any case) *)
+Theorem C09_pattern_equivalences : forall p q,
+  (forall n, ci_equiv (p ++ repeat STAR (S n) ++ q) (p ++ [STAR] ++ q)) /\
+  ci_equiv (p ++ [STAR; STAR] ++ q) (p ++ [STAR] ++ q) /\
+  ci_equiv (p ++ [STAR; QM] ++ q) (p ++ [QM; STAR] ++ q) /\
+  ci_equiv (norm_pat p) p /\
+  ci_equiv (lower p) p.
+Proof.
+  intros p q.
+  exact (conj (ci_equiv_star_run p q) (conj (ci_equiv_star_star p q) (conj (ci_equiv_star_qm p q)
+        (conj (ci_equiv_norm p) (ci_equiv_case p))))).
+Qed.
+Print Assumptions C09_pattern_equivalences.
+
+(* hence: "p**q" expands as "p*q" (a run of stars of any length too), "p*?q" as "p?*q" *)
+Theorem C09_star_star_expansion : forall cat p q na,
+  expand_action cat (p ++ [STAR; STAR] ++ q) na = expand_action cat (p ++ [STAR] ++ q) na.
+Proof. exact expand_star_star. Qed.
+Print Assumptions C09_star_star_expansion.
+Theorem C09_star_run_expansion : forall cat p q n na,
+  expand_action cat (p ++ repeat STAR (S n) ++ q) na = expand_action cat (p ++ [STAR] ++ q) na.
+Proof. exact expand_star_run. Qed.
+Print Assumptions C09_star_run_expansion.
+Theorem C09_star_question_expansion : forall cat p q na,
+  expand_action cat (p ++ [STAR; QM] ++ q) na = expand_action cat (p ++ [QM; STAR] ++ q) na.
+Proof. exact expand_star_qm. Qed.
+Print Assumptions C09_star_question_expansion.
+
+(* a pattern expands as its normal form; a list as the list of normal forms (and as the list of lower-cased patterns) *)
+Theorem C09_normal_form_expansion : forall cat,
+  (forall p na, expand_action cat (norm_pat p) na = expand_action cat p na) /\
+  (forall ps, expand cat (map norm_pat ps) = expand cat ps /\ expand_not cat (map norm_pat ps) = expand_not cat ps) /\
+  (forall ps, expand cat (map lower ps) = expand cat ps /\ expand_not cat (map lower ps) = expand_not cat ps).
+Proof. intros cat. exact (conj (expand_norm cat) (conj (expand_norm_list cat) (expand_lower_list cat))). Qed.
+Print Assumptions C09_normal_form_expansion.
+
+(* BUT "p*?q" does NOT expand as "p*q": a catalogue entry that is p and q with their stars deleted, side by side (nothing in
+   the place of the wildcards), is in the expansion of "p*q" and not in that of "p*?q" -- and the reverse under NotAction *)
+Theorem C09_star_question_is_not_star_expansion : forall cat p q,
+  let a := witness N N.eqb STAR p ++ witness N N.eqb STAR q in
+  In a cat ->
+  (In a (expand cat [p ++ [STAR] ++ q]) /\ ~ In a (expand cat [p ++ [STAR; QM] ++ q])) /\
+  (~ In a (expand_not cat [p ++ [STAR] ++ q]) /\ In a (expand_not cat [p ++ [STAR; QM] ++ q])).
+Proof. exact expand_star_qm_is_not_star. Qed.
+Print Assumptions C09_star_question_is_not_star_expansion.
+
+(* ---- non-vacuity on a small catalogue ---- *)
+Definition CAT6 : list str :=
+  [s "iam:PassRole"; s "s3:Get"; s "s3:GetObject"; s "s3:GetObjectAcl"; s "s3:ListBucket"; s "s3:PutObject"]%string.
+
+Example C09_ex_equivalent_spellings :
+  norm_pat (s "s3:Get*?*?*"%string) = s "s3:Get??*"%string /\
+  expand CAT6 [s "s3:Get*?*?*"]%string = [s "s3:GetObject"; s "s3:GetObjectAcl"]%string /\
+  expand CAT6 [s "S3:GET??*"]%string = [s "s3:GetObject"; s "s3:GetObjectAcl"]%string /\
+  expand CAT6 [s "s3:Get**"]%string = expand CAT6 [s "s3:Get*"]%string /\
+  expand CAT6 [s "s3:Get**"]%string = [s "s3:Get"; s "s3:GetObject"; s "s3:GetObjectAcl"]%string /\
+  expand_not CAT6 [s "s3:*?Object***"; s "iam:??*"]%string = expand_not CAT6 [s "iam:*"; s "S3:?*OBJECT*"; s "iam:*"]%string /\
+  expand_not CAT6 [s "s3:*?Object***"; s "iam:??*"]%string = [s "s3:Get"; s "s3:ListBucket"]%string.
+Proof. vm_compute. repeat split; reflexivity. Qed.
+
+(* hypotheses satisfiable: an entry that is the pattern with its stars deleted ("s3:Get" for "s3:Get*" / "s3:Get*?") *)
+Example C09_ex_star_question_is_not_star :
+  witness N N.eqb STAR (s "s3:Get"%string) ++ witness N N.eqb STAR [] = s "s3:Get"%string /\ In (s "s3:Get"%string) CAT6 /\
+  expand CAT6 [s "s3:Get*"]%string = [s "s3:Get"; s "s3:GetObject"; s "s3:GetObjectAcl"]%string /\
+  expand CAT6 [s "s3:Get*?"]%string = [s "s3:GetObject"; s "s3:GetObjectAcl"]%string /\
+  expand CAT6 [s "s3:Get*?"]%string <> expand CAT6 [s "s3:Get*"]%string.
+Proof.
+  split; [vm_compute; reflexivity|]. split; [right; left; reflexivity|].
+  split; [vm_compute; reflexivity|]. split; [vm_compute; reflexivity|]. vm_compute. discriminate.
+Qed.
+Example C09_ex_equiv_hypotheses :
+  Forall2 ci_equiv [s "s3:Get**"; s "iam:*?"]%string [s "s3:Get*"; s "iam:?*"]%string /\
+  arg_equiv (OneAction (s "s3:Get**"%string)) (OneAction (s "s3:Get*"%string)).
+Proof.
+  assert (H1 : ci_equiv (s "s3:Get**"%string) (s "s3:Get*"%string)) by exact (ci_equiv_star_star (s "s3:Get"%string) []).
+  assert (H2 : ci_equiv (s "iam:*?"%string) (s "iam:?*"%string)) by exact (ci_equiv_star_qm (s "iam:"%string) []).
+  split; [repeat constructor; assumption | constructor; exact H1].
+Qed.
